@@ -97,7 +97,7 @@ ASSUMPTIONS = [
     "the general theorems c04_nat_all_exits / c04_tproxy_all_exits / c04_nft_all_exits (every plan body, every initial kernel state, every k, every cut) assume: "
     "chain names without blanks and built-in OUTPUT/PREROUTING present in every iptables table (kst_wf), ports printed in 7-bit ASCII without blanks (pname_ok: they are decimal numbers, so the chain names the helper looks for are ASCII), the initial state holds "
     "no object named for the session's own ports (erase c s0 = s0; anything else is allowed), tproxy bodies respect the restore order (tp_body_ordered), "
-    "nft body rules name a chain nft.py creates (nft_body_ok); nat with --user/--group (c04_all_exits_full) additionally excludes exactly the F41 command (a failing tear-down `-t mangle -D OUTPUT ... MARK`); pf (c04_pf_identity, fault-free exits only) assumes anchor names of the main ruleset and ports without newline, no anchor named for the session's ports in the start state, on Darwin the next two -E tokens not outstanding, and for the main ruleset itself FreeBSD or no `set skip on lo`",
+    "nft body rules name a chain nft.py creates (nft_body_ok); nat with --user/--group (c04_all_exits_full) additionally excludes exactly the F41 command (a failing tear-down `-t mangle -D OUTPUT ... MARK`); pf (c04_pf_identity for fault-free exits; c04_pf_every_exit / c04_pf_all_exits / c04_pf_flush_ok_clean / c04_pf_restartable for EVERY set of failing pfctl/kldload commands, excluding exactly a failing tear-down `pfctl -d` / `pfctl -X <token>` = finding F150 (a failing flush only leaves its own anchor's content, which the next session removes), and with F43 characterised as `the first two set-up commands succeed`) assumes anchor names of the main ruleset and ports without newline, no anchor named for the session's ports in the start state, on Darwin the next two -E tokens not outstanding, and for the main ruleset itself FreeBSD or no `set skip on lo`",
     "chain listing: c04_chain_exists_exact (the line-by-line test the session model uses) holds for ARBITRARY bytes in rule text and in the other chains' names; "
     "c04_chain_exists_bytes_exact (decode + split on the raw output, as the code does it) needs rule text and chain names without line feeds (tbl_nolf; F90 otherwise)",
     "log faults: the theorems c04_log_total / c04_log_faults_invisible / c04_log_faults_same_commands assume that every exception a write or flush of the "
@@ -1886,6 +1886,8 @@ def oracle(ctx, kern, plan, info, real):
         if idx in info["faults"] and idx >= fin_at:
             failed.append([unhx(x) for x in t.split(":")[1].split(".")])
     listing_fault = any(a[-1] == b"-nL" for a in failed)
+    if pf:
+        pf_teardown_oracle(ctx, kern, plan, info, real, rep, s0, fin, want, own, failed)
     single_cmd_teardown = plan.method == "nft" or pf
     dv = diverting(fin, own)
     single = len(info["faults"]) == 1
@@ -1917,6 +1919,98 @@ def oracle(ctx, kern, plan, info, real):
                 known_once(ctx, "F41", "nat with --user/--group: a failing `-t mangle -D OUTPUT ... MARK` at tear-down leaves the MARK rule for good")
             ctx.violation("after one failing tear-down command a later session on the same port %s (%s)"
                           % ("cannot start" if not started else "does not reach the clean state", plan.method), v)
+
+
+F150_TEXT = ("pf: a failing tear-down `pfctl -d` / `pfctl -X <token>` leaves pf enabled for good: the command is never retried (Darwin pops "
+             "the token before pfctl runs), a pf that was disabled before the session stays enabled (Darwin: the session's reference stays), "
+             "and no later session repairs it: it finds pf enabled and does not count it as its own")
+
+
+def report_f150(ctx, what, rep):
+    ctx.count("F150_confirmed_on_real_code")
+    known_once(ctx, "F150", F150_TEXT)
+    ctx.violation(what, dict(rep, finding_id="F150"))
+
+
+def pf_teardown_oracle(ctx, kern, plan, info, real, rep, s0, fin, want, own, failed):
+    """pf, a command of the finally block was scripted to fail (theorems c04_pf_every_exit, c04_pf_flush_ok_clean,
+    c04_pf_restartable).  Looks only at the real run: what may differ from the state before the session is
+    (a) the anchor whose own `pfctl -a A -F all` failed (the failed command's own effect, as with nft's `delete table`),
+    (b) pf left enabled / the session's Darwin reference left behind when `pfctl -d` or `pfctl -X` itself failed = F150
+        (after a failing FLUSH alone the enable state must be the one before the session: the try/finally of the F150 fix),
+    (c) F43.  Everything else is a violation."""
+    a, b = s0["pf"], fin["pf"]
+    darwin = plan.method == "pf-darwin"
+    ctx.count("pf_teardown_fault_runs")
+    flushes = [x[2] for x in failed if len(x) == 5 and x[0] == b"pfctl" and x[1] == b"-a" and x[3:] == [b"-F", b"all"]]
+    enable_cmd_failed = any(x[0] == b"pfctl" and (x[1:] == [b"-d"] or (len(x) == 3 and x[1] == b"-X")) for x in failed)
+    w2, f2 = copy.deepcopy(want), copy.deepcopy(fin)
+    w2["pf"], f2["pf"] = {}, {}
+    if w2 != f2:
+        ctx.violation("pf: a session with a failing tear-down command changed the iptables/nft state", dict(rep, final=real["final"][:600]))
+    if a["loaded"] != b["loaded"]:
+        if not (plan.method == "pf-freebsd" and a["loaded"] and not b["loaded"]):
+            ctx.violation("pf: the kernel module state changed over a session with a failing tear-down command",
+                          dict(rep, pf_loaded_before=a["loaded"], pf_loaded_after=b["loaded"]))
+        else:
+            pf_identity(plan, s0, fin, rep, ctx)
+        return
+    foreign_after = [(n, t) for n, t in b["anchors"] if n not in own["anchors"]]
+    if foreign_after != want["pf"]["anchors"]:
+        ctx.violation("pf: an anchor the session does not own changed (failing tear-down command)", dict(rep, final=real["final"][:600]))
+    left = [n for n, t in b["anchors"] if n in own["anchors"]]
+    if any(n not in flushes for n in left):
+        ctx.violation("pf: an anchor of the session keeps its rules although its own `pfctl -a <anchor> -F all` did not fail",
+                      dict(rep, anchors_left=[n.decode("latin-1") for n in left], failed=[b" ".join(x).decode("latin-1") for x in failed]))
+    elif left:
+        ctx.count("pf_failing_flush_leaves_anchor_until_next_session")
+    if (a["main"], a["skip"]) != (b["main"], b["skip"]):
+        if plan.method in ("pf-openbsd", "pf-darwin") and a["skip"] and not b["skip"] and b["main"][:len(a["main"])] == a["main"]:
+            ctx.known("F43", "pf on OpenBSD/Darwin with 'set skip on lo': the main ruleset is replaced by 'match/pass on lo' during set-up and never restored")
+            ctx.violation("pf: the main ruleset was replaced during set-up and is not restored (set skip on lo)",
+                          dict(rep, finding_id="F43", main_before=[hx(t) for t in a["main"]][:6], main_after=[hx(t) for t in b["main"]][:6]))
+        else:
+            ctx.violation("pf: the main ruleset changed over a session with a failing tear-down command", dict(rep, final=real["final"][:600]))
+    en_dev = (a["on"], a["refs"]) != (b["on"], b["refs"])
+    left_enabled = False
+    if en_dev:
+        if darwin:
+            left_enabled = a["on"] == b["on"] and len(b["refs"]) > len(a["refs"]) and b["refs"][:len(a["refs"])] == a["refs"]
+        else:
+            left_enabled = (not a["on"]) and (not a["refs"]) and b["on"] and b["refs"] == a["refs"]
+        if left_enabled and enable_cmd_failed:
+            report_f150(ctx, "pf: after a failing tear-down command pf stays enabled although it was %s before the session (%s)"
+                        % ("not referenced by sshuttle" if darwin else "disabled", plan.method),
+                        dict(rep, failed=[b" ".join(x).decode("latin-1") for x in failed],
+                             pf_on_before=a["on"], pf_on_after=b["on"], refs_before=len(a["refs"]), refs_after=len(b["refs"])))
+        elif left_enabled and flushes:
+            ctx.violation("pf: a failing `pfctl -a <anchor> -F all` at tear-down kept the helper from disabling pf / releasing its "
+                          "reference: pf stays enabled with the session's rules still loaded (%s)" % plan.method,
+                          dict(rep, defect="F150", failed=[b" ".join(x).decode("latin-1") for x in failed],
+                               pf_on_before=a["on"], pf_on_after=b["on"], refs_before=len(a["refs"]), refs_after=len(b["refs"])))
+        else:
+            ctx.violation("pf: the enable state after a session with a failing tear-down command is neither the one before the session "
+                          "nor explained by the failing command (%s)" % plan.method,
+                          dict(rep, failed=[b" ".join(x).decode("latin-1") for x in failed],
+                               pf_on_before=a["on"], pf_on_after=b["on"], refs_before=len(a["refs"]), refs_after=len(b["refs"])))
+    # (iii) a later fault-free session on the same ports: starts, removes what a failing flush left; does it repair the enable state?
+    if len(info["faults"]) == 1 and not info.get("event") and not info.get("env") and not info.get("log") and not info.get("invoke"):
+        nl = len(plan.lines())
+        r2 = run_real(kern, plan.method, real["final"], plan.data(nl), [])
+        ctx.count("pf_restart_runs")
+        fin2 = dec_state(r2["final"])
+        c = fin2["pf"]
+        started = "M:started" in r2["trace"] or not a["loaded"]     # without the module no pfctl command can succeed (c04_pf_restartable: pf_loaded)
+        if not started or c["anchors"] != want["pf"]["anchors"]:
+            ctx.violation("pf: after one failing tear-down command a later session on the same ports %s"
+                          % ("cannot start" if not started else "does not remove the anchor content that was left"),
+                          dict(rep, second_session_started=started, second_final=r2["final"][:600]))
+        elif (c["on"], c["refs"]) != (a["on"], a["refs"]):
+            if en_dev and left_enabled and (c["on"], c["refs"]) == (b["on"], b["refs"]):
+                ctx.count("F150_not_repaired_by_later_session")
+            else:
+                ctx.violation("pf: a later fault-free session changed the enable state it found (%s)" % plan.method,
+                              dict(rep, second_final=r2["final"][:600]))
 
 
 def known_once(ctx, fid, text):
